@@ -183,12 +183,17 @@ static void run_list(const std::vector<std::string>& t)
     finish();
 }
 
+static ArenaT* make_arena(ArenaT* p, size_t bs, bool) { return new (p) ArenaT(M0, bs); }
+static RArenaT* make_arena(RArenaT* p, size_t bs, bool destroyBlocks) { return new (p) RArenaT(M0, (RArenaT::size_type) bs, destroyBlocks); }
+static void destroy_obj(ArenaT*, Obj*) {}
+static void destroy_obj(RArenaT* a, Obj* o) { a->destroyObject(o); }
+
 template <class A>
 static void run_arena(const std::vector<std::string>& t, bool reusable, bool destroyBlocks)
 {
     size_t bs = std::strtoul(t[3].c_str(), 0, 10);
     Raw<A> r;
-    A* a = reusable ? (A*) new (r.buf) RArenaT(M0, (RArenaT::size_type) bs, destroyBlocks) : (A*) new (r.buf) ArenaT(M0, bs);
+    A* a = make_arena((A*) r.buf, bs, destroyBlocks);
     std::vector<Obj*> objs;
     for (size_t k = 4; k < t.size(); ++k) {
         const std::string& s = t[k];
@@ -204,7 +209,7 @@ static void run_arena(const std::vector<std::string>& t, bool reusable, bool des
             }
             else if (starts(s, "d:") && reusable) {
                 size_t i = std::strtoul(s.c_str() + 2, 0, 10);
-                if (i < objs.size()) { ((RArenaT*) a)->destroyObject(objs[i]); objs.erase(objs.begin() + i); }
+                if (i < objs.size()) { destroy_obj(a, objs[i]); objs.erase(objs.begin() + i); }
             }
         }
         catch (const std::bad_alloc&) { ok = false; }
